@@ -3,7 +3,9 @@
 One run = one history and one merge.  BASE is built by a model-generated operation
 sequence (treesim) and committed; the tree is sprouted into a sibling branch; THIS and
 OTHER are derived from BASE by seeded edit batches (user edits, add, mkdir, remove, rename,
-move, chmod, symlink, kind change, commit) so that ONE of the four preconditions holds by
+move, chmod, symlink, kind change, commit; plus two composite shapes: a byte-identical copy of
+a file whose source is renamed / deleted in the same batch (git: rename + copy records), and a
+directory path vacated by a rename and re-used by a new directory with children (bzr)) so that ONE of the four preconditions holds by
 construction:
 
   other_is_base   OTHER == BASE (an empty or no-change commit), THIS edited freely
@@ -71,7 +73,7 @@ P_LIFT = 0.15
 LAWS = ["other_is_base", "this_is_base", "identical", "disjoint", "disjoint"]
 OWN = {"this": "ace", "other": "bd"}
 BASE_WEIGHTS = {"write": 6, "mkdir": 3, "symlink": 1, "chmod": 1, "rename": 1, "move": 1, "add": 1}
-BATCH_WEIGHTS = {"write": 5, "mkdir": 2, "mkdir_disk": 1, "add": 3, "smart_add": 1, "remove": 3, "rename": 4, "move": 3, "chmod": 2, "symlink": 1, "kindchange": 2, "rm_disk": 1, "commit": 1}
+BATCH_WEIGHTS = {"write": 5, "mkdir": 2, "mkdir_disk": 1, "add": 3, "smart_add": 1, "remove": 3, "rename": 4, "move": 3, "chmod": 2, "symlink": 1, "kindchange": 2, "rm_disk": 1, "commit": 1, "copy_then_move": 3, "vacate_reuse": 3}
 
 
 def warm():
@@ -148,9 +150,34 @@ def gen_batch(rng, model, names, n, who, weights, counter, unguarded=()):
     pool = [k for k, w in sorted(weights.items()) for _ in range(int(w))]
     ops = []
     tries = 0
+    def acceptable(op, m):
+        paths = op_paths(op, m)
+        if paths is None:
+            return False
+        if who is not None and any(owner(p) != who for p in paths):
+            return False
+        if any(T.inside(r, p) for p in paths for r in RESERVED):
+            return False
+        return m.classify(op) == "ok"
+
     while len(ops) < n and tries < n * 40:
         tries += 1
         kind = rng.choice(pool)
+        if kind in ("copy_then_move", "vacate_reuse"):
+            # composite shapes: all or nothing
+            seq = propose_shape(rng, g, model, kind, who)
+            m2 = model.copy()
+            ok = bool(seq)
+            for op in seq or ():
+                if not acceptable(op, m2):
+                    ok = False
+                    break
+                m2.apply(op)
+            if ok:
+                for op in seq:
+                    model.apply(op)
+                    ops.append(op)
+            continue
         op = g.propose(kind)
         if not op:
             continue
@@ -171,6 +198,68 @@ def gen_batch(rng, model, names, n, who, weights, counter, unguarded=()):
         ops.append(op)
     counter[0] = g.n
     return ops
+
+
+def content_n(data):
+    """The n of treesim.content(n)."""
+    return int(data.split(b"\n", 1)[0][1:])
+
+
+def propose_shape(rng, g, model, kind, who):
+    """Composite edit shapes the plain op mix hardly ever produces.
+
+    copy_then_move (git): a byte-identical copy of a tracked file is added and the source is
+    renamed or deleted in the same batch (the rename detector then reports rename + copy).
+    vacate_reuse (bzr): a directory is renamed away, a child is renamed inside it, and a NEW
+    directory with a new child takes over the vacated path."""
+    m = model
+    mine = lambda p: who is None or owner(p) == who  # noqa: E731
+    letters = OWN[who] if who else "abcde"
+    if kind == "copy_then_move":
+        if m.flavour != "git":
+            return None
+        srcs = sorted(p for p in m.inv if mine(p) and m.dkind(p) == T.FILE and p in m.basis and m.basis[p][2] == m.disk[p][1])
+        if not srcs:
+            return None
+        src = rng.choice(srcs)
+        dirs = sorted({T.parent(src)} | {d for d in m.disk if m.dkind(d) == T.DIR and mine(d) and d.count("/") < 2})
+        free = [(d + "/" + c if d else c) for d in dirs for c in letters]
+        free = [p for p in free if p not in m.disk and not m.is_versioned(p) and mine(p)]
+        if len(free) < 2:
+            return None
+        copy, dest = rng.sample(free, 2)
+        seq = [{"o": "write", "p": copy, "n": content_n(m.disk[src][1])}, {"o": "add", "p": copy, "id": "f%d" % g.fresh()}]
+        if rng.random() < 0.6:
+            seq.append({"o": "rename", "p": src, "to": dest})
+        else:
+            seq.append({"o": "remove", "p": src, "keep": False, "force": True})
+        if rng.random() < 0.5:
+            seq = seq[2:] + seq[:2]
+        return seq
+    if kind == "vacate_reuse":
+        if m.flavour != "bzr":
+            return None
+        dirs = sorted(d for d, e in m.inv.items() if d and e[1] == T.DIR and m.dkind(d) == T.DIR and mine(d) and any(m.dkind(q) == T.FILE and T.parent(q) == d for q in m.inv_below(d)))
+        if not dirs:
+            return None
+        x = rng.choice(dirs)
+        par = T.parent(x)
+        names_ = [c for c in letters if (par + "/" + c if par else c) not in m.disk and not m.is_versioned(par + "/" + c if par else c)]
+        if not names_:
+            return None
+        y = (par + "/" if par else "") + rng.choice(names_)
+        f = rng.choice(sorted(q for q in m.inv_below(x) if T.parent(q) == x and m.dkind(q) == T.FILE))
+        kids = {posixpath.basename(q) for q in m.disk if T.parent(q) == x}
+        gname = rng.choice([c for c in "abcde" if c not in kids] or ["zz"])
+        nname = rng.choice("abcde")
+        return [
+            {"o": "rename", "p": x, "to": y},
+            {"o": "rename", "p": y + "/" + posixpath.basename(f), "to": y + "/" + gname},
+            {"o": "mkdir", "p": x, "id": "d%d" % g.fresh()},
+            {"o": "write", "p": x + "/" + nname, "n": g.fresh()},
+            {"o": "add", "p": x + "/" + nname, "id": "f%d" % g.fresh()},
+        ]
+    return None
 
 
 def make_names(rng):
@@ -271,6 +360,14 @@ def _generate(rng):
         model.apply(op)
         base.append(op)
     base += gen_batch(rng, model, names, rng.randint(4, 12), None, BASE_WEIGHTS, counter, unguarded)
+    if fl == "git":
+        # no empty directories in a git BASE (see ASSUMPTIONS): remove them, deepest first
+        for dpath in sorted((q for q, node in model.disk.items() if node[0] == T.DIR), key=lambda q: -q.count("/")):
+            if not model.disk_below(dpath):
+                op = {"o": "rm_disk", "p": dpath}
+                if model.classify(op) == "ok":
+                    model.apply(op)
+                    base.append(op)
     counter[0] += 1
     op = {"o": "smart_add", "p": "", "n": counter[0]}
     if model.classify(op) != "ok":
@@ -283,7 +380,13 @@ def _generate(rng):
     # histories of the two sides
     def side(who_area, n, seed_model, tag, must_commit):
         m = seed_model.copy()
-        ops = gen_batch(rng, m, names, n, who_area, BATCH_WEIGHTS, counter, unguarded)
+        weights = BATCH_WEIGHTS
+        if rng.random() < (0.45 if fl == "git" else 0.25):
+            # a batch that is little more than one composite shape (a git commit that mixes added
+            # and modified files is outside the treesim model, so copies rarely survive a mixed batch)
+            weights = {"copy_then_move": 6, "write": 1} if fl == "git" else {"vacate_reuse": 6, "write": 1, "rename": 1}
+            n = min(n, 2)
+        ops = gen_batch(rng, m, names, n, who_area, weights, counter, unguarded)
         if must_commit:
             counter[0] += 1
             if not final_commit(m, ops, tag, 1700000000 + counter[0]):
